@@ -1,2 +1,3 @@
+@current.setter
 def spec(self, value):
     self.current_.push(value, self.inplace)
